@@ -22,7 +22,8 @@ RULE = ("case = (diagram class, random program of <=12 public operations on a "
         "pool of random diagrams, then 4 hostile near-miss requests); every "
         "returned/yielded/constructed diagram is scanned.  Non-trivial = the "
         "program returned >=5 diagrams with >=2 boxes; distinct by the repr "
-        "of the first 6 results.")
+        "of the first 6 results."
+        "  L1 keeps every diagram built in a case and re-scans, at the end of the case, those whose fingerprint changed.")
 SIZES = {"quick": (16, 380), "thorough": (16, 9500)}
 TIMEOUT = {"quick": 600, "thorough": 5400}
 COVER = {
